@@ -22,11 +22,11 @@ End PtreeInd.
 Section WtreeInd.
   Variable P : wtree -> Prop.
   Hypothesis Hleaf : forall o d i c, P (WLeaf o d i c).
-  Hypothesis Hclass : forall fs, Forall (fun kc => P (snd kc)) fs -> P (WClass fs).
+  Hypothesis Hclass : forall cm fs, Forall (fun kc => P (snd kc)) fs -> P (WClass cm fs).
   Fixpoint wtree_ind2 (w : wtree) : P w :=
     match w with
     | WLeaf o d i c => Hleaf o d i c
-    | WClass fs => Hclass fs ((fix go (fs : list (string * wtree)) : Forall (fun kc => P (snd kc)) fs :=
+    | WClass cm fs => Hclass cm fs ((fix go (fs : list (string * wtree)) : Forall (fun kc => P (snd kc)) fs :=
                                  match fs with
                                  | [] => Forall_nil _
                                  | kc :: r => Forall_cons kc (wtree_ind2 (snd kc)) (go r)
@@ -189,11 +189,11 @@ Fixpoint sdt_go (m : list (string * ptree)) (fs : list (string * wtree)) : res (
 Definition names_known (fs : list (string * wtree)) (m : list (string * ptree)) : bool :=
   forallb (fun k => str_in k (keys fs) || str_in k DISCARD_GEN) (keys m).
 
-Lemma sdt_class fs m :
-  set_default_tree_gen (WClass fs) (PMap m) =
+Lemma sdt_class cm fs m :
+  set_default_tree_gen (WClass cm fs) (PMap m) =
   match sdt_go m fs with
   | Err e => Err e
-  | Ok fs' => if names_known fs m then Ok (WClass fs') else Err (Raise UNKNOWN_ERR_GEN)
+  | Ok fs' => if names_known fs m then Ok (WClass (cm_set cm true) fs') else Err (Raise UNKNOWN_ERR_GEN)
   end.
 Proof.
   unfold set_default_tree_gen. cbn [set_default_tree].
@@ -249,10 +249,10 @@ Lemma sdt_leaf_at w : forall t w' q o d i c,
   leaf_at q w = Some (o, d, i, c) ->
   leaf_at q w' = Some (o, d, i, upd c (subtree q t)).
 Proof.
-  induction w as [o0 d0 i0 c0 | fs IH] using wtree_ind2; intros t w' q o d i c H Hl.
+  induction w as [o0 d0 i0 c0 | cm fs IH] using wtree_ind2; intros t w' q o d i c H Hl.
   - destruct q; [|discriminate]. injection Hl as <- <- <- <-.
     unfold set_default_tree_gen in H. cbn in H. injection H as <-. reflexivity.
-  - destruct q as [|k r]; [discriminate|]. cbn [leaf_at] in Hl.
+  - destruct q as [|k r]; [discriminate|]. destruct cm as [|ds di]; [|discriminate]. cbn [leaf_at] in Hl.
     destruct (lookup k fs) as [ch|] eqn:Ek; [|discriminate].
     destruct t as [| v | m].
     + unfold set_default_tree_gen in H. cbn in H. injection H as <-. cbn [leaf_at subtree upd]. rewrite Ek. exact Hl.
@@ -273,7 +273,8 @@ Fixpoint init_go (m : list (string * ptree)) (fs : list (string * wtree)) : list
   | (k, c) :: r => (k, match lookup k m with Some tk => init_instance c tk | None => c end) :: init_go m r
   end.
 
-Lemma init_class fs m : init_instance (WClass fs) (PMap m) = WClass (init_go m fs).
+Lemma init_class cm fs m :
+  init_instance (WClass cm fs) (PMap m) = WClass (match cm with CPlain => CPlain | COpt _ _ => COpt true true end) (init_go m fs).
 Proof.
   cbn [init_instance]. f_equal. induction fs as [|[k c] r IH]; [reflexivity|]. cbn [init_go]. rewrite <- IH. reflexivity.
 Qed.
@@ -298,9 +299,9 @@ Definition init_info (x : leaf_info) (m : option ptree) : leaf_info :=
 Lemma init_leaf_at w : forall t q x,
   leaf_at q w = Some x -> leaf_at q (init_instance w t) = Some (init_info x (subtree q t)).
 Proof.
-  induction w as [o0 d0 i0 c0 | fs IH] using wtree_ind2; intros t q x Hl.
+  induction w as [o0 d0 i0 c0 | cm fs IH] using wtree_ind2; intros t q x Hl.
   - destruct q; [|discriminate]. injection Hl as <-. reflexivity.
-  - destruct q as [|k r]; [discriminate|]. cbn [leaf_at] in Hl.
+  - destruct q as [|k r]; [discriminate|]. destruct cm as [|ds di]; [|discriminate]. cbn [leaf_at] in Hl.
     destruct (lookup k fs) as [ch|] eqn:Ek; [|discriminate].
     destruct t as [| v | m].
     { cbn [init_instance leaf_at subtree init_info]. rewrite Ek. destruct x as [[[? ?] ?] ?]. exact Hl. }
@@ -317,40 +318,48 @@ Definition child_cli (cli : option ptree) (k : string) : option ptree :=
 Definition osub (q : path) (cli : option ptree) : option ptree :=
   match cli with Some t => subtree q t | None => None end.
 
-Fixpoint fin_go (cli : option ptree) (fs : list (string * wtree)) : res (list (string * ptree)) :=
+Fixpoint fin_go (b : bool) (cli : option ptree) (fs : list (string * wtree)) : res (list (string * ptree)) :=
   match fs with
   | [] => Ok []
   | (k, c) :: r =>
-      match finish_gen c (child_cli cli k) with
+      match finish_gen b c (child_cli cli k) with
       | Err e => Err e
-      | Ok v => match fin_go cli r with Ok r' => Ok ((k, v) :: r') | Err e => Err e end
+      | Ok v => match fin_go b cli r with Ok r' => Ok ((k, v) :: r') | Err e => Err e end
       end
   end.
 
-Lemma finish_class fs cli :
-  finish_gen (WClass fs) cli = match fin_go cli fs with Err e => Err e | Ok kvs => Ok (PMap kvs) end.
+Lemma finish_class b cm fs cli :
+  finish_gen b (WClass cm fs) cli =
+  match fin_go (b || is_copt cm) cli fs with
+  | Err e => Err e
+  | Ok kvs =>
+      match cm with
+      | COpt ds di => if opt_guard_gen true ds di && all_at_default manual_set_gen fs kvs then Ok PNull else Ok (PMap kvs)
+      | CPlain => Ok (PMap kvs)
+      end
+  end.
 Proof.
   unfold finish_gen. cbn [finish].
   replace ((fix go (fs0 : list (string * wtree)) : res (list (string * ptree)) :=
               match fs0 with
               | [] => Ok []
               | (k, c) :: r =>
-                  match finish manual_set_gen c match cli with Some (PMap m) => lookup k m | _ => None end with
+                  match finish manual_set_gen opt_guard_gen (b || is_copt cm) c match cli with Some (PMap m) => lookup k m | _ => None end with
                   | Ok v => match go r with Ok r' => Ok ((k, v) :: r') | Err e => Err e end
                   | Err e => Err e
                   end
-              end) fs) with (fin_go cli fs); [reflexivity|].
+              end) fs) with (fin_go (b || is_copt cm) cli fs); [reflexivity|].
   induction fs as [|[k c] r IH]; [reflexivity|]. cbn [fin_go]. rewrite IH. reflexivity.
 Qed.
 
-Lemma fin_go_lookup cli fs : forall kvs k c,
-  fin_go cli fs = Ok kvs -> lookup k fs = Some c ->
-  exists v, lookup k kvs = Some v /\ finish_gen c (child_cli cli k) = Ok v.
+Lemma fin_go_lookup b cli fs : forall kvs k c,
+  fin_go b cli fs = Ok kvs -> lookup k fs = Some c ->
+  exists v, lookup k kvs = Some v /\ finish_gen b c (child_cli cli k) = Ok v.
 Proof.
   induction fs as [|[k0 c0] r IH]; intros kvs k c H Hl; [discriminate|].
   cbn [fin_go] in H. cbn [lookup] in Hl.
-  destruct (finish_gen c0 (child_cli cli k0)) as [v0|e] eqn:Ef; [|discriminate].
-  destruct (fin_go cli r) as [r'|e] eqn:Er; [|discriminate]. injection H as <-.
+  destruct (finish_gen b c0 (child_cli cli k0)) as [v0|e] eqn:Ef; [|discriminate].
+  destruct (fin_go b cli r) as [r'|e] eqn:Er; [|discriminate]. injection H as <-.
   cbn [lookup]. destruct (String.eqb k k0) eqn:E.
   - apply String.eqb_eq in E. subst. injection Hl as <-. exists v0. split; [reflexivity | exact Ef].
   - eapply IH; [reflexivity | exact Hl].
@@ -362,23 +371,23 @@ Proof.
 Qed.
 
 (* what a parsed field holds: the option written on the command line, else FieldWrapper.default *)
-Lemma finish_leaf_at w : forall cli r q o d i c,
-  finish_gen w cli = Ok r ->
+Lemma finish_leaf_at w : forall b cli r q o d i c,
+  finish_gen b w cli = Ok r ->
   leaf_at q w = Some (o, d, i, c) ->
   subtree q r = Some (match osub q cli with Some v => v | None => leaf_default_gen d i c end).
 Proof.
-  induction w as [o0 d0 i0 c0 | fs IH] using wtree_ind2; intros cli r q o d i c H Hl.
+  induction w as [o0 d0 i0 c0 | cm fs IH] using wtree_ind2; intros b cli r q o d i c H Hl.
   - destruct q; [|discriminate]. injection Hl as <- <- <- <-.
     unfold finish_gen in H. cbn [finish] in H. cbn [subtree osub].
     destruct cli as [v|]; cbn [osub subtree].
     + injection H as <-. reflexivity.
-    + destruct (leaf_required manual_set_gen o0 d0 i0 c0); [discriminate|]. injection H as <-. reflexivity.
-  - destruct q as [|k q']; [discriminate|]. cbn [leaf_at] in Hl.
+    + destruct (negb b && leaf_required manual_set_gen o0 d0 i0 c0); [discriminate|]. injection H as <-. reflexivity.
+  - destruct q as [|k q']; [discriminate|]. destruct cm as [|ds di]; [|discriminate]. cbn [leaf_at] in Hl.
     destruct (lookup k fs) as [ch|] eqn:Ek; [|discriminate].
-    rewrite finish_class in H. destruct (fin_go cli fs) as [kvs|e] eqn:Eg; [|discriminate]. injection H as <-.
-    destruct (fin_go_lookup cli fs kvs k ch Eg Ek) as [v [Hv Hf]].
+    rewrite finish_class in H. destruct (fin_go _ cli fs) as [kvs|e] eqn:Eg; [|discriminate]. injection H as <-.
+    destruct (fin_go_lookup _ cli fs kvs k ch Eg Ek) as [v [Hv Hf]].
     cbn [subtree]. rewrite Hv, osub_cons.
-    apply lookup_In in Ek. rewrite Forall_forall in IH. apply (IH _ Ek _ _ _ _ _ _ _ Hf Hl).
+    apply lookup_In in Ek. rewrite Forall_forall in IH. apply (IH _ Ek _ _ _ _ _ _ _ _ Hf Hl).
 Qed.
 
 (* ---------- the parser ---------- *)
@@ -535,7 +544,7 @@ Qed.
 
 Lemma finish_all_cons d w r cli :
   finish_all_gen ((d, w) :: r) cli =
-  match finish_gen w (match cli with PMap m => lookup d m | _ => None end) with
+  match finish_gen false w (match cli with PMap m => lookup d m | _ => None end) with
   | Err e => Err e
   | Ok v => match finish_all_gen r cli with Ok r' => Ok ((d, v) :: r') | Err e => Err e end
   end.
@@ -548,12 +557,12 @@ Proof.
   induction ws as [|[d0 w0] r IH]; intros cli kvs q o d i c H Hl.
   - destruct q; discriminate.
   - destruct q as [|dq p]; [discriminate|]. rewrite finish_all_cons in H.
-    destruct (finish_gen w0 _) as [v0|e] eqn:Ef; [|discriminate].
+    destruct (finish_gen false w0 _) as [v0|e] eqn:Ef; [|discriminate].
     destruct (finish_all_gen r cli) as [r'|e] eqn:Er; [|discriminate]. injection H as <-.
     cbn [fleaf_at lookup] in Hl. cbn [subtree lookup].
     destruct (String.eqb dq d0) eqn:E.
     + apply String.eqb_eq in E. subst dq.
-      rewrite (finish_leaf_at _ _ _ _ _ _ _ _ Ef Hl). f_equal.
+      rewrite (finish_leaf_at _ _ _ _ _ _ _ _ _ Ef Hl). f_equal.
       destruct cli as [| v | m]; reflexivity.
     + specialize (IH cli r' (dq :: p) o d i c Er). cbn [fleaf_at subtree] in IH. apply IH. exact Hl.
 Qed.
@@ -784,7 +793,7 @@ Theorem layers_refuted :
               (map (rooted_gen nm ws) (if acp_of acp_arg ctor && cg then clif else [])) cli q = Some v /\
     subtree q r <> Some v.
 Proof.
-  exists PARSE_NESTED_MODE_GEN, [("config", WClass [("x", WLeaf true (Some (PVal (VInt 5))) None PNull)])],
+  exists PARSE_NESTED_MODE_GEN, [("config", WClass CPlain [("x", WLeaf true (Some (PVal (VInt 5))) None PNull)])],
          (PMap []), [], None, [PMap [("x", PNull)]], false, [], (PMap []),
          (PMap [("config", PMap [("x", PVal (VInt 5))])]), ["config"; "x"], true, (Some (PVal (VInt 5))), PNull.
   vm_compute. repeat split; try reflexivity. intros H. discriminate H.
@@ -873,7 +882,7 @@ Fixpoint hu_go (m : list (string * ptree)) (fs : list (string * wtree)) : bool :
   | (k, c) :: r => match lookup k m with Some tk => has_unknown_gen c tk | None => false end || hu_go m r
   end.
 
-Lemma hu_class fs m : has_unknown_gen (WClass fs) (PMap m) = negb (names_known fs m) || hu_go m fs.
+Lemma hu_class cm fs m : has_unknown_gen (WClass cm fs) (PMap m) = negb (names_known fs m) || hu_go m fs.
 Proof.
   unfold has_unknown_gen. cbn [has_unknown]. f_equal.
   induction fs as [|[k c] r IH]; [reflexivity|]. cbn [hu_go]. rewrite <- IH. reflexivity.
@@ -902,7 +911,7 @@ Qed.
 (* a key that names no field, anywhere in the document, is never dropped silently *)
 Lemma has_unknown_err w : forall t, has_unknown_gen w t = true -> exists e, set_default_tree_gen w t = Err e.
 Proof.
-  induction w as [o d i c | fs IH] using wtree_ind2; intros t H.
+  induction w as [o d i c | cm fs IH] using wtree_ind2; intros t H.
   - rewrite hu_leaf in H. discriminate.
   - destruct t as [| v | m]; try discriminate H.
     rewrite hu_class in H. rewrite sdt_class.
@@ -927,10 +936,10 @@ Lemma unknown_err_is_runtime_error : UNKNOWN_ERR_GEN = "RuntimeError".
 Proof. reflexivity. Qed.
 
 (* when the nested sections are fine, the error is the documented RuntimeError *)
-Theorem unknown_key_runtime_error fs m k :
+Theorem unknown_key_runtime_error cm fs m k :
   In k (keys m) -> str_in k (keys fs) = false -> str_in k DISCARD_GEN = false ->
   (forall n c s, In (n, c) fs -> lookup n m = Some s -> exists c', set_default_tree_gen c s = Ok c') ->
-  set_default_tree_gen (WClass fs) (PMap m) = Err (Raise "RuntimeError").
+  set_default_tree_gen (WClass cm fs) (PMap m) = Err (Raise "RuntimeError").
 Proof.
   intros Hin Hf Hd Hok. rewrite sdt_class. destruct (sdt_go_ok m fs Hok) as [fs' ->].
   assert (E : names_known fs m = false).
@@ -959,7 +968,7 @@ Qed.
 
 Lemma sdt_hu w : forall t w', set_default_tree_gen w t = Ok w' -> forall t2, has_unknown_gen w' t2 = has_unknown_gen w t2.
 Proof.
-  induction w as [o d i c | fs IH] using wtree_ind2; intros t w' H t2.
+  induction w as [o d i c | cm fs IH] using wtree_ind2; intros t w' H t2.
   - unfold set_default_tree_gen in H. cbn in H. injection H as <-. reflexivity.
   - destruct t as [| v | m].
     + unfold set_default_tree_gen in H. cbn in H. injection H as <-. reflexivity.
@@ -975,7 +984,7 @@ Proof. induction fs as [|[k c] r IH]; [reflexivity|]. cbn [init_go keys map fst]
 
 Lemma init_hu w : forall t t2, has_unknown_gen (init_instance w t) t2 = has_unknown_gen w t2.
 Proof.
-  induction w as [o d i c | fs IH] using wtree_ind2; intros t t2; [reflexivity|].
+  induction w as [o d i c | cm fs IH] using wtree_ind2; intros t t2; [reflexivity|].
   destruct t as [| v | m]; try reflexivity.
   rewrite init_class. destruct t2 as [| v2 | m2]; try reflexivity.
   rewrite !hu_class. unfold names_known. rewrite init_go_keys. f_equal.
@@ -1112,7 +1121,7 @@ Qed.
 
 Lemma hu_is_spec w : forall t, has_unknown_gen w t = names_nonfield w t.
 Proof.
-  induction w as [o d i c | fs IH] using wtree_ind2; intros t; [reflexivity|].
+  induction w as [o d i c | cm fs IH] using wtree_ind2; intros t; [reflexivity|].
   destruct t as [| v | m]; try reflexivity.
   rewrite hu_class. cbn [names_nonfield]. rewrite nonfield_known. f_equal.
   induction fs as [|[k c] r IHr]; [reflexivity|].
@@ -1177,25 +1186,26 @@ Proof.
   inversion IH as [|? ? Hc Hr]; subst. cbn [snd] in Hc. rewrite String.eqb_refl, Hc. cbn [andb]. apply IHr. exact Hr.
 Qed.
 
-(* fresh wrappers (no instance yet, _default None) of dataclasses whose field names are distinct *)
+(* fresh wrappers (no instance yet, _default None) of dataclasses whose field names are distinct, all members plain *)
 Fixpoint wf (w : wtree) {struct w} : bool :=
   match w with
   | WLeaf _ _ None PNull => true
   | WLeaf _ _ _ _ => false
-  | WClass fs =>
+  | WClass CPlain fs =>
       str_nodupb (keys fs)
       && (fix go (fs : list (string * wtree)) : bool :=
             match fs with [] => true | (_, c) :: r => wf c && go r end) fs
+  | WClass (COpt _ _) _ => false       (* no Optional[Dataclass] members: those are covered by the correspondence only *)
   end.
 
 Definition wf_forest (ws : list (string * wtree)) : bool :=
   str_nodupb (keys ws) && forallb (fun dw => wf (snd dw)) ws.
 
-Lemma wf_class fs : wf (WClass fs) = str_nodupb (keys fs) && forallb (fun kc => wf (snd kc)) fs.
+Lemma wf_class fs : wf (WClass CPlain fs) = str_nodupb (keys fs) && forallb (fun kc => wf (snd kc)) fs.
 Proof. cbn [wf]. f_equal. induction fs as [|[k c] r IH]; [reflexivity|]. cbn [forallb snd]. now rewrite IH. Qed.
 
-Lemma leaf_paths_class fs :
-  leaf_paths (WClass fs) = flat_map (fun kc => map (fun qd => (fst kc :: fst qd, snd qd)) (leaf_paths (snd kc))) fs.
+Lemma leaf_paths_class cm fs :
+  leaf_paths (WClass cm fs) = flat_map (fun kc => map (fun qd => (fst kc :: fst qd, snd qd)) (leaf_paths (snd kc))) fs.
 Proof. cbn [leaf_paths]. induction fs as [|[k c] r IH]; [reflexivity|]. cbn [flat_map fst snd]. now rewrite IH. Qed.
 
 Lemma lookup_nodup {A} (fs : list (string * A)) k c :
@@ -1213,10 +1223,11 @@ Qed.
 Lemma leaf_paths_leaf_at w : forall q d,
   wf w = true -> In (q, d) (leaf_paths w) -> exists o, leaf_at q w = Some (o, d, None, PNull).
 Proof.
-  induction w as [o0 d0 i0 c0 | fs IH] using wtree_ind2; intros q d Hw Hin.
+  induction w as [o0 d0 i0 c0 | cm fs IH] using wtree_ind2; intros q d Hw Hin.
   - cbn [leaf_paths] in Hin. destruct Hin as [E | []]. injection E as <- <-.
     cbn [wf] in Hw. destruct i0; [discriminate|]. destruct c0; try discriminate. now exists o0.
-  - rewrite wf_class in Hw. apply andb_true_iff in Hw as [Hn Hc]. rewrite leaf_paths_class in Hin.
+  - destruct cm as [|ds di]; [|discriminate Hw].
+    rewrite wf_class in Hw. apply andb_true_iff in Hw as [Hn Hc]. rewrite leaf_paths_class in Hin.
     apply in_flat_map in Hin as [[k c] [Hkc Hin]]. apply in_map_iff in Hin as [[q' d'] [E Hin]].
     cbn [fst snd] in E. injection E as <- <-.
     rewrite forallb_forall in Hc. specialize (Hc _ Hkc). rewrite Forall_forall in IH.
@@ -1233,6 +1244,31 @@ Proof.
   destruct (leaf_paths_leaf_at w q' d' Hc Hin) as [o Ho]. exists o. cbn [fleaf_at].
   now rewrite (lookup_nodup ws dd w Hn Hdw).
 Qed.
+
+Lemma opt_paths_class cm fs :
+  opt_paths (WClass cm fs) =
+  ((if is_copt cm then [[]] else []) ++ flat_map (fun kc => map (cons (fst kc)) (opt_paths (snd kc))) fs)%list.
+Proof. cbn [opt_paths]. f_equal. induction fs as [|[k c] r IH]; [reflexivity|]. cbn [flat_map fst snd]. now rewrite IH. Qed.
+
+Lemma wf_opt_paths w : wf w = true -> opt_paths w = [].
+Proof.
+  induction w as [o d i c | cm fs IH] using wtree_ind2; intros Hw; [reflexivity|].
+  destruct cm as [|ds di]; [|discriminate Hw]. rewrite wf_class in Hw. apply andb_true_iff in Hw as [_ Hc].
+  rewrite opt_paths_class. cbn [is_copt app].
+  induction fs as [|[k c] r IHr]; [reflexivity|].
+  inversion IH as [|? ? Hk Hr]; subst. cbn [forallb snd] in Hc, Hk. apply andb_true_iff in Hc as [Hc1 Hc2].
+  cbn [flat_map fst snd]. rewrite (Hk Hc1), (IHr Hr Hc2). reflexivity.
+Qed.
+
+Lemma wf_forest_opt_paths ws : wf_forest ws = true -> forest_opt_paths ws = [].
+Proof.
+  unfold wf_forest, forest_opt_paths. intros H. apply andb_true_iff in H as [_ Hc].
+  induction ws as [|[d w] r IH]; [reflexivity|]. cbn [forallb snd] in Hc. apply andb_true_iff in Hc as [Hc1 Hc2].
+  cbn [flat_map fst snd]. rewrite (wf_opt_paths w Hc1), (IH Hc2). reflexivity.
+Qed.
+
+Lemma filter_true {A} (l : list A) : filter (fun _ => true) l = l.
+Proof. induction l as [|x r IH]; [reflexivity|]. cbn [filter]. now rewrite IH. Qed.
 
 Lemma fold_kwargs_unknown l : forall st kw,
   In kw l -> forest_has_unknown (ps_ws st) kw = true -> exists e, fold_res set_defaults_kwargs_gen st l = Err e.
@@ -1281,6 +1317,7 @@ Proof.
     apply in_map_iff in Hin as [f [<- Hf]].
     destruct (unknown_key_clif nm ws inst sdefs acp_arg ctor clif cli f Hf Hmf (Hcg eq_refl) Hd) as [e He]. congruence.
   - destruct (negb _); [reflexivity|].
+    rewrite (wf_forest_opt_paths ws Hw). cbn [filter existsb negb map]. rewrite filter_true, app_nil_r.
     cbn [verdict_allows]. apply forallb_forall. intros [q vo] Hin.
     apply in_map_iff in Hin as [[q' d] [E Hin]]. cbn [fst snd] in E. injection E as <- <-.
     unfold demanded_at. cbn [fst snd].
@@ -1301,14 +1338,14 @@ Proof. reflexivity. Qed.
 Lemma strip_covers_discard : forallb (fun k => str_in k CTOR_STRIP_GEN) DISCARD_GEN = true.
 Proof. vm_compute. reflexivity. Qed.
 
-Definition ckeys (w : wtree) : option (list string) := match w with WClass fs => Some (keys fs) | WLeaf _ _ _ _ => None end.
+Definition ckeys (w : wtree) : option (list string) := match w with WClass _ fs => Some (keys fs) | WLeaf _ _ _ _ => None end.
 
 Definition allknown (w : wtree) (m : list (string * ptree)) : Prop :=
-  match w with WClass fs => names_known fs m = true | WLeaf _ _ _ _ => True end.
+  match w with WClass _ fs => names_known fs m = true | WLeaf _ _ _ _ => True end.
 
 Lemma allknown_ckeys w w' m : ckeys w = ckeys w' -> allknown w m -> allknown w' m.
 Proof.
-  destruct w as [? ? ? ?|fs], w' as [? ? ? ?|fs']; cbn [ckeys allknown]; try discriminate; try tauto.
+  destruct w as [? ? ? ?|? fs], w' as [? ? ? ?|? fs']; cbn [ckeys allknown]; try discriminate; try tauto.
   intros E. injection E as E. unfold names_known. now rewrite E.
 Qed.
 
@@ -1326,7 +1363,7 @@ Qed.
 
 Lemma sdt_ckeys w t w' : set_default_tree_gen w t = Ok w' -> ckeys w = ckeys w'.
 Proof.
-  destruct w as [o d i c|fs]; intros H.
+  destruct w as [o d i c|cm fs]; intros H.
   - unfold set_default_tree_gen in H. cbn in H. injection H as <-. reflexivity.
   - destruct t as [| v | m].
     + unfold set_default_tree_gen in H. cbn in H. injection H as <-. reflexivity.
@@ -1337,7 +1374,7 @@ Qed.
 
 Lemma sdt_allknown w m w' : set_default_tree_gen w (PMap m) = Ok w' -> allknown w m.
 Proof.
-  destruct w as [o d i c|fs]; intros H; cbn [allknown]; [exact I|].
+  destruct w as [o d i c|cm fs]; intros H; cbn [allknown]; [exact I|].
   rewrite sdt_class in H. destruct (sdt_go m fs); [|discriminate]. now destruct (names_known fs m).
 Qed.
 
@@ -1382,7 +1419,7 @@ Lemma allknown_union w mo mn :
   allknown w mo -> allknown w mn ->
   forall m, dict_union_gen (PMap mo) (PMap mn) = PMap m -> allknown w m.
 Proof.
-  destruct w as [? ? ? ?|fs]; cbn [allknown]; [tauto|]. intros Ho Hn m E. rewrite du_maps in E. injection E as <-.
+  destruct w as [? ? ? ?|? fs]; cbn [allknown]; [tauto|]. intros Ho Hn m E. rewrite du_maps in E. injection E as <-.
   rewrite names_known_app. apply andb_true_iff. split.
   - unfold names_known in *. now rewrite du_go_keys.
   - now apply names_known_filter.
@@ -1440,7 +1477,7 @@ Lemma ca_ok_no_extra ws ca : ca_ok ws ca -> existsb (extra_kwargs_gen ca) ws = f
 Proof.
   intros [_ Hok]. apply not_true_is_false. intros H. apply existsb_exists in H as [[d w] [Hin Hx]].
   unfold extra_kwargs_gen, extra_kwargs in Hx. cbn [fst snd] in Hx.
-  destruct (subtree [d] ca) as [[| v | m]|] eqn:Es; try discriminate. destruct w as [? ? ? ?|fs]; [discriminate|].
+  destruct (subtree [d] ca) as [[| v | m]|] eqn:Es; try discriminate. destruct w as [? ? ? ?|? fs]; [discriminate|].
   specialize (Hok d _ m Hin Es). cbn [allknown] in Hok. unfold names_known in Hok.
   apply negb_true_iff in Hx. apply not_true_iff_false in Hx. apply Hx.
   rewrite forallb_forall in Hok |- *. intros k Hk. specialize (Hok k Hk).
@@ -1489,7 +1526,34 @@ Proof.
   cbn [sdt_go lookup]. rewrite String.eqb_sym in Hk. rewrite Hk, (IH Hr). reflexivity.
 Qed.
 
-Theorem type_key_in_section_ignored fs m v :
+Theorem type_key_in_section_ignored cm fs m v :
   str_in "_type_" (keys fs) = false ->
-  set_default_tree_gen (WClass fs) (PMap (("_type_", v) :: m)) = set_default_tree_gen (WClass fs) (PMap m).
+  set_default_tree_gen (WClass cm fs) (PMap (("_type_", v) :: m)) = set_default_tree_gen (WClass cm fs) (PMap m).
 Proof. intros H. now rewrite !sdt_class, names_known_tag, (sdt_go_tag fs m v H). Qed.
+
+(* ---------- Optional[Dataclass] = None members (otherwise covered by the correspondence only) ---------- *)
+(* a document that gives the member a section marks its wrapper (DataclassWrapper._default is the dict) ... *)
+Lemma opt_section_marks cm fs m w' :
+  set_default_tree_gen (WClass cm fs) (PMap m) = Ok w' -> exists fs', w' = WClass (cm_set cm true) fs'.
+Proof.
+  rewrite sdt_class. destruct (sdt_go m fs) as [fs'|]; [|discriminate].
+  destruct (names_known fs m); [|discriminate]. intros H. injection H as <-. now exists fs'.
+Qed.
+
+(* ... and a marked member is instantiated, whatever its fields hold *)
+Lemma opt_marked_is_instance b di fs cli r :
+  finish_gen b (WClass (COpt true di) fs) cli = Ok r -> is_map r = true.
+Proof.
+  rewrite finish_class. destruct (fin_go _ cli fs) as [kvs|]; [|discriminate].
+  replace (opt_guard_gen true true di) with false by (unfold opt_guard_gen; destruct di; reflexivity).
+  cbn [andb]. intros H. injection H as <-. reflexivity.
+Qed.
+
+Theorem optional_member_given_a_section b cm fs m w' cli r :
+  set_default_tree_gen (WClass cm fs) (PMap m) = Ok w' -> finish_gen b w' cli = Ok r -> is_map r = true.
+Proof.
+  intros H Hf. destruct (opt_section_marks _ _ _ _ H) as [fs' ->].
+  destruct cm as [|ds di]; cbn [cm_set] in Hf.
+  - rewrite finish_class in Hf. destruct (fin_go _ cli fs'); [|discriminate]. injection Hf as <-. reflexivity.
+  - apply (opt_marked_is_instance _ _ _ _ _ Hf).
+Qed.
